@@ -119,16 +119,20 @@ def code_fn(name, record):
   def fn(w, b, X, y, keys):
     alg = build(name, X, y, DOMS)
     s0 = init_state(name, alg, w, b)
-    clients = make_clients(DOMS, keys)
+    all_clients = make_clients(DOMS, keys)
+    clients = all_clients[:1]                  # round 1: only the first client ...
     before = snapshot(s0)
     s1, d1 = alg.apply(s0, clients)
     record['mutated_by_first_call'] = diff_snap(before, snapshot(s0))
     s1b, d1b = alg.apply(s0, clients)          # same argument objects again
     before1 = snapshot(s1)
-    s2, d2 = alg.apply(s1, clients)            # repeated participation, reachable second-round state
+    s2, d2 = alg.apply(s1, all_clients)        # ... round 2: repeated participation plus a first-time participant
     record['mutated_by_third_call'] = diff_snap(before1, snapshot(s1))
-    s2b, d2b = alg.apply(s1, clients)
-    return {'first': (s1, _diag(d1)), 'again': (s1b, _diag(d1b)), 'third': (s2, _diag(d2)), 'third_again': (s2b, _diag(d2b))}
+    s2b, d2b = alg.apply(s1, all_clients)
+    fresh = build(name, X, y, DOMS)            # a fresh algorithm object must agree: no state hidden in the object
+    s2f, d2f = fresh.apply(s1, all_clients)
+    return {'first': (s1, _diag(d1)), 'again': (s1b, _diag(d1b)), 'third': (s2, _diag(d2)), 'third_again': (s2b, _diag(d2b)),
+            'third_fresh': (s2f, _diag(d2f))}
   return fn
 
 
@@ -168,7 +172,7 @@ def run_alg(run, name, timeout):
       paths += 1
       goals = [('argument-state-structure-unchanged(1st call)%s' % (paths,), not record['mutated_by_first_call']),
                ('argument-state-structure-unchanged(3rd call)%s' % (paths,), not record['mutated_by_third_call'])]
-      for a_key, b_key in (('first', 'again'), ('third', 'third_again')):
+      for a_key, b_key in (('first', 'again'), ('third', 'third_again'), ('third', 'third_fresh')):
         la, lb = jh.flat_with_paths(out[a_key]), jh.flat_with_paths(out[b_key])
         if [p for p, _ in la] != [p for p, _ in lb]:
           goals.append(('%s-vs-%s structure' % (a_key, b_key), False))
@@ -259,7 +263,9 @@ def concrete_purity(name):
   clients = make_clients(DOMS, keys)
   msgs = []
   state = s0
+  all_clients = clients
   for rnd in range(2):
+    clients = all_clients[:1] if rnd == 0 else all_clients
     before_struct = jax.tree_util.tree_structure(state)
     before_vals = [np.asarray(l).copy() if hasattr(l, 'shape') else l for l in jax.tree_util.tree_leaves(state)]
     out1, d1 = alg.apply(state, clients)
@@ -279,6 +285,10 @@ def concrete_purity(name):
         msgs.append('round %d: a second identical call returns a different result (%s)' % (rnd + 1, where))
     except RuntimeError as e:
       msgs.append('round %d: second call with the same state fails: %s' % (rnd + 1, str(e).split('\n')[0][:120]))
+    out3, d3 = build(name, X, y, DOMS).apply(state, clients)
+    d, where = jh.max_discrepancy((out1, _diag(d1)), (out3, _diag(d3)))
+    if d > 0:
+      msgs.append('round %d: a fresh algorithm object gives a different result (state hidden in the object): %s' % (rnd + 1, where))
     state = out1
   return bool(msgs), '; '.join(msgs[:3]) or 'pure on the concrete run'
 
@@ -300,6 +310,8 @@ def concrete_pickle_continue(name):
   try:
     serialization.save_state(s1, tmp + '/state')
     r1 = serialization.load_state(tmp + '/state')
+  except Exception as e:   # pylint: disable=broad-except
+    return True, 'a state reached after one round cannot be serialised/restored: %s: %s' % (type(e).__name__, str(e)[:120])
   finally:
     shutil.rmtree(tmp, ignore_errors=True)
   msgs = []
@@ -318,6 +330,54 @@ def concrete_pickle_continue(name):
     if d > 0 or [np.asarray(l).dtype for l in jax.tree_util.tree_leaves(a2)] != [np.asarray(l).dtype for l in jax.tree_util.tree_leaves(b2)]:
       msgs.append('continuing from the restored state differs: %s' % where)
   return bool(msgs), '; '.join(msgs[:2]) or 'restored state continues identically'
+
+
+def concrete_apfl_eval_purity():
+  """Evaluating (also never-seen) clients with APFL's eval function must not touch the server state."""
+  F = _fx()
+  from fedjax.core import metrics
+  N = sum(SIZES)
+  rng = np.random.RandomState(0)
+  X, y = jnp.asarray(rng.randn(N, D), jnp.float32), jnp.asarray(rng.randn(N), jnp.float32)
+  alg = build('apfl', X, y, DOMS)
+  s0 = init_state('apfl', alg, jnp.ones(D, jnp.float32), jnp.zeros((), jnp.float32))
+  keys = jax.random.split(jax.random.PRNGKey(0), len(SIZES))
+  clients = make_clients(DOMS, keys)
+  s1, _ = alg.apply(s0, clients[:1])
+  model = F['models'].Model(init=lambda r: None, apply_for_train=None,
+                            apply_for_eval=lambda p, bt: jnp.stack([X[bt['idx']] @ p['w'] + p['b'], -(X[bt['idx']] @ p['w'] + p['b'])], axis=-1),
+                            train_loss=None, eval_metrics={'acc': metrics.Accuracy(target_key='domain_id')})
+  ev = F['apfl'].eval_adaptive_personalized_federated_learning(model, pad())
+  before = sorted(s1.client_states)
+  snap = snapshot(s1)
+  list(ev(s1, [(cid, ds) for cid, ds, _ in clients]))
+  after = sorted(s1.client_states)
+  if before != after or diff_snap(snap, snapshot(s1)):
+    return True, 'evaluating clients changed the server state: client_states keys %s -> %s' % (before, after)
+  return False, 'eval leaves the state untouched'
+
+
+def concrete_pickle_weak_types():
+  """A state with a bfloat16 leaf and a weakly typed scalar restores with the same dtypes / weak types, so that the next
+  (dtype-promoting) step computes the same values."""
+  import tempfile, shutil
+  from fedjax.core import serialization
+  st = {'w': jnp.asarray([0.5, -1.25, 3.0], jnp.bfloat16), 'lr': jnp.asarray(0.3), 'n': jnp.asarray(3)}
+  tmp = tempfile.mkdtemp(prefix='vf_c10_')
+  try:
+    serialization.save_state(st, tmp + '/s')
+    rs = serialization.load_state(tmp + '/s')
+  finally:
+    shutil.rmtree(tmp, ignore_errors=True)
+  msgs = []
+  step = lambda s: {'w': s['w'] - s['lr'] * s['w'] * s['n'], 'lr': s['lr'], 'n': s['n']}
+  a, b_ = step(st), step(rs)
+  for k in st:
+    if jnp.asarray(st[k]).dtype != jnp.asarray(rs[k]).dtype or getattr(st[k], 'weak_type', None) != getattr(rs[k], 'weak_type', None):
+      msgs.append('leaf %r restored as %s weak=%s (saved %s weak=%s)' % (k, jnp.asarray(rs[k]).dtype, getattr(rs[k], 'weak_type', None), jnp.asarray(st[k]).dtype, getattr(st[k], 'weak_type', None)))
+    if jnp.asarray(a[k]).dtype != jnp.asarray(b_[k]).dtype or not np.array_equal(np.asarray(a[k], np.float64), np.asarray(b_[k], np.float64)):
+      msgs.append('continuing from the restored state: leaf %r %s %s vs %s %s' % (k, jnp.asarray(b_[k]).dtype, np.asarray(b_[k], np.float64).tolist(), jnp.asarray(a[k]).dtype, np.asarray(a[k], np.float64).tolist()))
+  return bool(msgs), '; '.join(msgs[:2]) or 'weak types and dtypes survive'
 
 
 # ---- compression aggregators ------------------------------------------------------------------------
@@ -407,6 +467,10 @@ def replay(data):
     return concrete_purity(data['name'])
   if data['kind'] == 'pickle':
     return concrete_pickle_continue(data['name'])
+  if data['kind'] == 'pickle_weak':
+    return concrete_pickle_weak_types()
+  if data['kind'] == 'apfl_eval':
+    return concrete_apfl_eval_purity()
   return concrete_agg_purity(data['name'], data.get('encode'))
 
 
@@ -437,6 +501,14 @@ def check(run):
     run.ob('aux-concrete:serialise-and-continue:' + name, 'sat' if bad else 'unsat', detail=msg if bad else None, nontrivial=False)
     if bad:
       run.violation('%s:pickle-continue' % name, '%s: %s' % (name, msg), {'kind': 'pickle', 'name': name}, True)
+  bad, msg = concrete_apfl_eval_purity()
+  run.ob('aux-concrete:apfl-eval-leaves-state-untouched', 'sat' if bad else 'unsat', detail=msg if bad else None, nontrivial=False)
+  if bad:
+    run.violation('apfl:eval-mutates-state', 'APFL eval function: %s' % msg, {'kind': 'apfl_eval'}, True)
+  bad, msg = concrete_pickle_weak_types()
+  run.ob('aux-concrete:serialise-and-continue:weak-types', 'sat' if bad else 'unsat', detail=msg if bad else None, nontrivial=False)
+  if bad:
+    run.violation('pickle-weak-types', 'save_state/load_state: %s' % msg, {'kind': 'pickle_weak'}, True)
   for name, enc in [(n, None) for n in AGGS] + [('uniform', 'arithmetic')]:
     bad, msg = concrete_agg_purity(name, enc)
     run.ob('concrete-double-call:agg:%s:%s' % (name, enc), 'sat' if bad else 'unsat', detail=msg if bad else None, nontrivial=False)
